@@ -168,6 +168,8 @@ func TestC04(t *testing.T) {
 	r.Require("upgrade_faults_fired", 300)
 	r.Require("upgrade_failed_one_side", 200)
 	r.Require("upgrade_completed_despite_fault", 1)
+	r.Count("stream_opens_refused_for_an_already_ended_context", int(endedCtxOpens.Load()))
+	r.Require("stream_opens_refused_for_an_already_ended_context", 50)
 	r.Require("rcmgr_refusals_fired", 20)
 	r.Require("gater_rejections_fired", 4)
 	r.Require("listener_accept_timeouts", 1)
